@@ -23,9 +23,18 @@ def confirm(scratch, ovs, target_dir, h, result, mine, logdir):
     tests, plog = kani.playback_print(ovs[h["flavour"]], target_dir, h, logdir, h.get("timeout_thorough", 3600), 40,
                                       prop=mine[0]["name"])
     if not tests:
+        # CBMC did not recognise the property id (closures / generic instances are renamed by Kani's
+        # pretty printer): fall back to a full trace run (slow: minutes, tens of GB)
+        tests, plog = kani.playback_print(ovs[h["flavour"]], target_dir, h, logdir, 3000, 44, prop=None)
+    if not tests:
         out["note"] = "Kani produced no concrete playback test (see %s)" % plog
         return out
+    # prefer the generated test whose header names one of the failing checks attributed to us
     test_src = tests[0]
+    for t in tests:
+        if any(f["desc"][:50] in t for f in mine):
+            test_src = t
+            break
     m = re.search(r"fn (kani_concrete_playback_\w+)", test_src)
     tname = m.group(1)
     # the generated test names the harness by its last path segment; qualify it
